@@ -24,8 +24,8 @@ RULE = ("Part A: Cartesian enumeration of static layouts (grid size x goal confi
         "obstacle on one directed edge, pairs of features} x fence success probability {0,1/2,1}); inside one item the two "
         "agents are placed on every ordered pair of distinct free cells and a BFS from every not-yet-seen initial state "
         "applies the real next_state_dist to every reachable state x all 25 joint actions (states = distinct reachable "
-        "states incl. the terminal one, summed over layouts; transitions = (state, joint action) pairs whose real "
-        "next-state distribution was checked). A layout is non-trivial when on at least one edge the measured "
+        "states incl. the terminal one, summed over layouts, plus the factor-table pairs of part B; transitions = (state, "
+        "joint action) pairs whose real next-state distribution was checked, plus factor-table operations compared). A layout is non-trivial when on at least one edge the measured "
         "probability of the free-movement outcome is < 0.99 because of an obstacle, wall, fence, collision, "
         "move-into-occupied-cell or swap (classified by the harness's own geometry). "
         "Part B: Cartesian enumeration of ordered pairs of factor tables (header = 1..2(3) leaf variables out of "
@@ -328,6 +328,9 @@ def check_grid(item, tier, seed=0):
 
     graph = E3.Graph()
     cache = {}
+    # a correct game has at most N*(N-1) + N (both on one goal cell) + 1 (terminal) states; the cap only keeps a broken
+    # transition function from producing an unbounded search (it is then reported as non-exhaustive, next to the violations)
+    max_states = 4 * (len(free) + 2) ** 2 + 16
     rule_kinds = set()
     r.count('layouts')
 
@@ -476,6 +479,15 @@ def check_grid(item, tier, seed=0):
                 r.count('edges_changed_by:' + kd)
                 rule_kinds.add(kd)
             r.count('edges_outcome_changed')
+        # measured, not judged (the statement does not fix fence outcome probabilities): one agent tries to cross a fence
+        # with nothing else in the way while the other agent stays put, away from the cells involved
+        for (an, act), (other, oact) in (((AGENTS[0], a[0]), (AGENTS[1], a[1])), ((AGENTS[1], a[1]), (AGENTS[0], a[0]))):
+            raw = (cells[an][0] + act[0], cells[an][1] + act[1])
+            if (act != (0, 0) and oact == (0, 0) and (cells[an], act) in geo.fences and geo.in_grid(raw)
+                    and raw not in geo.obstacles and (cells[an], act) not in geo.walls and cells[other] != raw):
+                r.count('fence_crossings_measured_unjudged')
+                if abs(p_free - float(p)) > 1e-3:
+                    r.count('fence_crossings_with_probability_not_p_unjudged')
         # rewards on ordinary edges: called, not judged (the statement only fixes the terminal state's)
         for ns in pos.values():
             try:
@@ -539,7 +551,7 @@ def check_grid(item, tier, seed=0):
                 r.count('placements_already_reached')
                 continue
             n_roots += 1
-            E3.bfs(roots, actions, step, graph=graph, on_state=on_state)
+            E3.bfs(roots, actions, step, graph=graph, on_state=on_state, max_states=max_states)
             # library reachable_states() vs the BFS set of this initial state (same transition function, memoised)
             mine = graph.reach(rk)
             real = TabularGridGame.next_state_dist
